@@ -34,6 +34,7 @@ type vrCase struct {
 	n     int
 	runs  int
 	fails int
+	skip  string // non-empty: case could not run here (reason)
 }
 
 func vrNewEnv(t *testing.T) *vrEnv {
@@ -84,9 +85,22 @@ func (e *vrEnv) run(name string, f func(c *vrCase)) {
 		}()
 		f(c)
 	}()
-	if c.fails == 0 {
+	if c.skip != "" {
+		fmt.Printf("REPLAY-SKIP case=%s reason=%s\n", c.name, vrOneLine(c.skip))
+	} else if c.fails == 0 {
 		fmt.Printf("REPLAY-OK case=%s n=%d\n", c.name, c.runs)
 	}
+}
+
+// runExtra is like run for cases that are outside the documented contract of the
+// package (e.g. undocumented aliasing): they are not part of "all" and run only
+// when named explicitly in VERIF_FUNCS.
+func (e *vrEnv) runExtra(name string, f func(c *vrCase)) {
+	if e.sel == nil {
+		e.seen[name] = true
+		return
+	}
+	e.run(name, f)
 }
 
 func (e *vrEnv) finish() {
@@ -101,8 +115,8 @@ func (e *vrEnv) finish() {
 func vrOneLine(s string) string {
 	s = strings.ReplaceAll(s, "\n", "\\n")
 	s = strings.ReplaceAll(s, " ", "_")
-	if len(s) > 600 {
-		s = s[:600] + "..."
+	if len(s) > 8000 {
+		s = s[:8000] + "..."
 	}
 	if s == "" {
 		s = "-"
